@@ -193,9 +193,22 @@ T_SHAPES = sorted(SHAPES)
 TIERS = {
     # tier: (shapes, variants, cut mode)
     "dev": (["d01", "d04", "d06", "d12"], ["delegateV2", "crossChain"], "sample"),
-    "quick": (Q_SHAPES, ["delegateV2", "crossChain"], "sample"),
+    "quick": (Q_SHAPES, None, "sample"),        # variants: quick_variants(seed)
     "thorough": (T_SHAPES, sorted(VARIANTS), "all"),
 }
+# quick tier: three fixed method variants - a single-step staking method, the allowance-consuming multi-step
+# staking method (allowance decrement + reward withdrawal + share move in one action), the cross-chain method
+# that pulls an approved ERC-20 through the running EVM, converts and pools it - plus one further staking and
+# one further cross-chain variant rotated by VERIF_SEED (the thorough tier runs all of them)
+QUICK_FIXED = ["delegateV2", "transferFromShares", "crossChain"]
+QUICK_ROT_STK = ["undelegateV2", "transferShares", "redelegateV2", "withdraw", "approveShares"]
+QUICK_ROT_CC = ["executeClaim", "increaseBridgeFee", "cancelSendToExternal", "bridgeCall", "ccfx"]
+
+
+def quick_variants(seed):
+    return QUICK_FIXED + [QUICK_ROT_STK[seed % len(QUICK_ROT_STK)], QUICK_ROT_CC[seed % len(QUICK_ROT_CC)]]
+
+
 # Scenario of a known finding.  bridgeCall (ERC-20 -> coin, EvmToBaseCoin) and cancelSendToExternal (refund
 # coin -> ERC-20, HookOutgoingRefund) convert through KEEPER-LEVEL EVM calls that create and commit a NESTED
 # state DB inside the native action, while the calling transaction's own pending writes to the same token
@@ -217,8 +230,10 @@ def in_scenario(case):
     return uses_evm(SHAPES[v["shape"]]) or bool(ms & INFRAME_TOKEN_WRITERS)
 
 
-def tier_cases(tier):
+def tier_cases(tier, seed=1):
     shapes, variants, _ = TIERS[tier]
+    if variants is None:
+        variants = quick_variants(seed)
     return sorted(case_id(s, v) for s in shapes for v in variants)
 
 
@@ -300,7 +315,7 @@ def run_c09(work, args):
     if getattr(args, "replay", None):
         open(work.path("FramesCuts.tla"), "w").write(emit_cuts({}))
         return specs.replay_path(work, args.replay, pid="C09", module="Frames", pkg="frames", formulas=FORMULAS, reset_op=RESET)
-    ids = tier_cases(tier)
+    ids = tier_cases(tier, work.seed)
     scen = [c for c in ids if in_scenario(c)]
     main = [c for c in ids if not in_scenario(c)]
     binary = vlib.build(work, "frames")
